@@ -43,6 +43,7 @@ struct Acc {
 fn run_sequence(acc: &mut Acc, iface: &IfaceDesc, cap: usize, ops: &[&[u8]], grouping: &[usize], via_process: bool, rng: &mut Rng) {
     // build messages according to the grouping (sizes); parse-level faults end a message
     let mut msgs: Vec<Vec<u8>> = Vec::new();
+    let mut msg_of: Vec<usize> = Vec::new();
     let mut i = 0;
     let mut g = 0;
     while i < ops.len() {
@@ -51,13 +52,13 @@ fn run_sequence(acc: &mut Acc, iface: &IfaceDesc, cap: usize, ops: &[&[u8]], gro
         let mut m: Vec<u8> = Vec::new();
         let mut k = 0;
         while k < size && i < ops.len() {
+            msg_of.push(msgs.len());
             if k > 0 {
                 m.extend_from_slice(b";:");
             }
             m.extend_from_slice(ops[i]);
-            // every fault ends its message: after a fault an implementation may run all or
-            // none of the remaining units (C06), so nothing is placed behind one
-            let ends = !matches!(ops[i], b"SYST:ERR?" | b"SYSTEM:ERROR:NEXT?" | b"SYST:ERR:COUN?" | b"VAL?" | b"OK");
+            // a syntax-level fault ends its message (the rest is discarded in any case)
+            let ends = ops[i] == b"ZZ" || ops[i] == b"ARG 1 2";
             i += 1;
             k += 1;
             if ends {
@@ -94,55 +95,101 @@ fn run_sequence(acc: &mut Acc, iface: &IfaceDesc, cap: usize, ops: &[&[u8]], gro
             _ => {}
         }
     }
+    let calls_seen = out.log.iter().filter(|e| matches!(e, Ev::Enter { .. })).count();
+    let mut verdict: Result<(), (String, String)> = Ok(());
+    let mut stats = (0u64, 0u64, 0u64, 0u64, 0u64);
+    // policy false: every unit of a message runs; policy true: nothing after a unit that failed
+    for skip_after_fault in [false, true] {
+        let r = replay(cap, ops, &msg_of, &pushes, &outbytes, calls_seen, skip_after_fault);
+        match r {
+            Ok(st) => {
+                stats = st;
+                verdict = Ok(());
+                break;
+            }
+            Err(e) => {
+                if !skip_after_fault {
+                    verdict = Err(e);
+                }
+            }
+        }
+    }
+    if verdict.is_ok() {
+        acc.next_checked += stats.0;
+        acc.count_checked += stats.1;
+        acc.empty_reads += stats.2;
+        acc.overflows += stats.3;
+        acc.overflow_then_read += stats.4;
+    }
+    if let Err((clause, detail)) = verdict {
+        acc.res.add_violation(Violation {
+            sig: format!("{}/cap{}", clause, if cap >= 4 { "4+".to_string() } else { cap.to_string() }),
+            summary: format!("capacity {}: [{}]: {}", cap, ops.iter().map(|o| esc(o)).collect::<Vec<_>>().join(" | "), detail),
+            witness: J::obj(vec![
+                ("iface", J::s(iface.name)),
+                ("capacity", cap.into()),
+                ("messages", J::strs(msgs.iter().map(|m| esc(m)))),
+                ("messages_hex", J::strs(msgs.iter().map(|m| hex(m)))),
+                ("via_process", via_process.into()),
+                ("pushes_seen", J::strs(pushes.iter().map(|(n, t)| format!("{},{}", n, t)))),
+                ("output", J::s(esc(&outbytes))),
+            ]),
+        });
+    }
+}
+
+/// Replays the operation sequence against the model.  Returns counters
+/// (next checked, count checked, empty reads, overflows, reads after overflow).
+fn replay(
+    cap: usize, ops: &[&[u8]], msg_of: &[usize], pushes: &[(i16, String)], outbytes: &[u8], calls_seen: usize, skip_after_fault: bool,
+) -> Result<(u64, u64, u64, u64, u64), (String, String)> {
     let mut model = QueueModel::new(cap);
     let mut pi = 0usize;
     let mut pos = 0usize;
     let mut overflowed = false;
-    let mut verdict: Result<(), (String, String)> = Ok(());
-    'ops: for op in ops {
-        let opi = OPS.iter().position(|o| o == op);
+    let mut st = (0u64, 0u64, 0u64, 0u64, 0u64);
+    let mut failed_msg: Option<usize> = None;
+    let mut calls_expected = 0usize;
+    for (oi, op) in ops.iter().enumerate() {
+        if skip_after_fault && failed_msg == Some(msg_of[oi]) {
+            continue;
+        }
+        if matches!(*op, b"CUST" | b"CUSTB?" | b"HW" | b"OK" | b"VAL?") {
+            calls_expected += 1;
+        }
         let is_next = *op == b"SYST:ERR?" || *op == b"SYSTEM:ERROR:NEXT?";
         let is_count = *op == b"SYST:ERR:COUN?";
         let is_val = *op == b"VAL?";
         let is_fault = !(is_next || is_count || is_val || *op == b"OK");
         if is_fault {
-            // exactly one push belongs to this operation
+            failed_msg = Some(msg_of[oi]);
             match pushes.get(pi) {
                 Some((n, t)) => {
                     if model.count() == cap {
                         overflowed = true;
-                        acc.overflows += 1;
+                        st.3 += 1;
                     }
                     model.push(*n, t);
                     pi += 1;
                 }
-                None => {
-                    verdict = Err(("fault-not-pushed".into(), format!("operation \"{}\" pushed no error", esc(op))));
-                    break 'ops;
-                }
+                None => return Err(("fault-not-pushed".into(), format!("operation \"{}\" pushed no error", esc(op)))),
             }
             continue;
         }
         if *op == b"OK" {
             continue;
         }
-        // an answer is due
-        let (toks, used) = match decode_response(&outbytes[pos.min(outbytes.len())..]) {
-            Ok(x) => x,
-            Err(m) => {
-                verdict = Err(("answer-missing-or-malformed".into(), format!("for \"{}\": {}", esc(op), m)));
-                break 'ops;
-            }
-        };
+        let (toks, used) = decode_response(&outbytes[pos.min(outbytes.len())..])
+            .map_err(|m| ("answer-missing-or-malformed".to_string(), format!("for \"{}\": {}", esc(op), m)))?;
         pos += used;
         if is_next {
-            acc.next_checked += 1;
+            st.0 += 1;
             let (wn, wt) = model.pop();
             if wn == 0 {
-                acc.empty_reads += 1;
+                st.2 += 1;
             }
             if overflowed && wn != 0 {
-                acc.overflow_then_read += 1;
+                st.4 += 1;
             }
             if model.count() == 0 {
                 overflowed = false;
@@ -161,41 +208,27 @@ fn run_sequence(acc: &mut Acc, iface: &IfaceDesc, cap: usize, ops: &[&[u8]], gro
                 else {
                     "fifo-order-wrong"
                 };
-                verdict = Err((clause.into(), format!("NEXT? answered {:?} but the model holds {},\"{}\"", toks, wn, wt)));
-                break 'ops;
+                return Err((clause.into(), format!("NEXT? answered {:?} but the model holds {},\"{}\"", toks, wn, wt)));
             }
         }
         else if is_count {
-            acc.count_checked += 1;
+            st.1 += 1;
             let ok = matches!(toks.as_slice(), [Tok::Num(n)] if n.parse::<usize>().ok() == Some(model.count()));
             if !ok {
-                verdict = Err(("count-wrong".into(), format!("COUNt? answered {:?} but the model holds {} entries", toks, model.count())));
-                break 'ops;
+                return Err(("count-wrong".into(), format!("COUNt? answered {:?} but the model holds {} entries", toks, model.count())));
             }
         }
-        let _ = opi;
     }
-    if verdict.is_ok() && pi != pushes.len() {
-        verdict = Err(("unexpected-push".into(), format!("{} errors pushed, {} faults in the sequence", pushes.len(), pi)));
+    if calls_expected != calls_seen {
+        return Err(("handler-calls-inconsistent-with-reported-errors".into(), format!("{} user handlers ran, {} expected under this policy", calls_seen, calls_expected)));
     }
-    if verdict.is_ok() && pos != outbytes.len() {
-        verdict = Err(("unexpected-output".into(), format!("output beyond the expected answers: \"{}\"", esc(&outbytes[pos..]))));
+    if pi != pushes.len() {
+        return Err(("unexpected-push".into(), format!("{} errors pushed, {} faults executed in the sequence", pushes.len(), pi)));
     }
-    if let Err((clause, detail)) = verdict {
-        acc.res.add_violation(Violation {
-            sig: format!("{}/cap{}", clause, if cap >= 4 { "4+".to_string() } else { cap.to_string() }),
-            summary: format!("capacity {}: [{}]: {}", cap, ops.iter().map(|o| esc(o)).collect::<Vec<_>>().join(" | "), detail),
-            witness: J::obj(vec![
-                ("iface", J::s(iface.name)),
-                ("capacity", cap.into()),
-                ("messages", J::strs(msgs.iter().map(|m| esc(m)))),
-                ("messages_hex", J::strs(msgs.iter().map(|m| hex(m)))),
-                ("via_process", via_process.into()),
-                ("pushes_seen", J::strs(pushes.iter().map(|(n, t)| format!("{},{}", n, t)))),
-                ("output", J::s(esc(&outbytes))),
-            ]),
-        });
+    if pos != outbytes.len() {
+        return Err(("unexpected-output".into(), format!("output beyond the expected answers: \"{}\"", esc(&outbytes[pos..]))));
     }
+    Ok(st)
 }
 
 fn exhaustive_shard(iface: &IfaceDesc, cap: usize, depth: usize, first: usize) -> Acc {
@@ -364,7 +397,7 @@ pub fn run(ctx: &Ctx) -> PropResult {
     }
     res.distinct = distinct;
     res.rule = format!(
-        "exhaustive: every sequence of {} operations over the 8-operation alphabet {:?} for each capacity in {:?}, each operation its own message on one device (all shorter sequences are prefixes); random: sequences of 6..40 operations biased towards faults, randomly grouped into compound messages (a fault is always the last unit of its message), a third through process; direct: the ErrorQueue trait of StaticErrorQueue<N> against the model. distinct = distinct operation sequences",
+        "exhaustive: every sequence of {} operations over the 8-operation alphabet {:?} for each capacity in {:?}, each operation its own message on one device (all shorter sequences are prefixes); random: sequences of 6..40 operations biased towards faults, randomly grouped into compound messages (syntax-level faults last in their message; after an execution-level fault both policies C06 allows - run all or none of the remaining units - are accepted), a third through process; direct: the ErrorQueue trait of StaticErrorQueue<N> against the model. distinct = distinct operation sequences",
         depth, OP_NAMES, caps
     );
     let _ = OP_ENDS_MESSAGE;
